@@ -2,9 +2,16 @@
    check.  input  = ((key bytes) (nwires ninputs noutputs) ((op in0 in1 out)...)
                      (rnd labels...) (x bits...) (scratch (L0 L1)...))
    output = (R ((L0 L1)...) ((row...)...) (evaluated output labels...)
-             (decoded bits...) (plain bits...))                              *)
+             (decoded bits...) (plain bits...))
+   A second kind of case (first item the atom 1 instead of the key list) runs the
+   []*big.Int layer of Circuit.Compute (Circuit/ComputeIO.v):
+   input  = (1 (nwires ninputs noutputs) ((op in0 in1 out)...)
+               ((bits (compound member bits...))...)   declared Inputs
+               ((bits (compound member bits...))...)   declared Outputs
+               (argument values...))                   may be negative / over-wide
+   output = (0 (results...)) | (1 got expected) "invalid inputs" | (2) panic  *)
 From Coq Require Import ZArith NArith List Bool.
-From Mpc Require Import Gen.Consts Base.Sx Base.Label Base.Aes Circuit.Circuit Circuit.Garble.
+From Mpc Require Import Gen.Consts Base.Sx Base.Label Base.Aes Circuit.Circuit Circuit.Garble Circuit.ComputeIO.
 Import ListNotations.
 
 (* circuit.Operation enum values come from the regenerated Gen/Consts.v *)
@@ -25,7 +32,7 @@ Definition sx_of_wire (w : wire) : sx := SL [ofN (L0 w); ofN (L1 w)].
 Definition opt_bit (o : option bool) : sx :=
   match o with Some b => ofB b | None => SZ (-1) end.
 
-Definition run_c01 (inp : sx) : sx :=
+Definition run_c01_garble (inp : sx) : sx :=
   let rks := aes_schedule (getLN (nthx 0 inp)) in
   let pi := aes_pi rks in
   let c := circuit_of_sx (nthx 1 inp) (nthx 2 inp) in
@@ -44,6 +51,27 @@ Definition run_c01 (inp : sx) : sx :=
            ofLN (map (fun o => nth o ew 0%N) outs);
            SL (map (fun o => opt_bit (decode (nth o (gWires g) w0) (nth o ew 0%N))) outs);
            ofLB (eval_plain c x) ]
+  end.
+
+Definition ioarg_of_sx (s : sx) : ioarg := mkIO (getnat (nthx 0 s)) (getLnat (nthx 1 s)).
+
+Definition sx_of_cres (r : cres) : sx :=
+  match r with
+  | COk l => SL [SZ 0; ofLZ l]
+  | CErrArgs g e => SL [SZ 1; ofnat g; ofnat e]
+  | CPanic => SL [SZ 2]
+  end.
+
+Definition run_c01_io (inp : sx) : sx :=
+  let c := circuit_of_sx (nthx 1 inp) (nthx 2 inp) in
+  sx_of_cres (compute_io c (map ioarg_of_sx (getL (nthx 3 inp)))
+                           (map ioarg_of_sx (getL (nthx 4 inp)))
+                           (getLZ (nthx 5 inp))).
+
+Definition run_c01 (inp : sx) : sx :=
+  match nthx 0 inp with
+  | SZ 1%Z => run_c01_io inp
+  | _ => run_c01_garble inp
   end.
 
 Lemma op_enum_ok :
